@@ -1,5 +1,6 @@
 import Generated.Trans
 import Model.Handshake
+import Props.C13
 /-
 Tie obligations for C13: the two decisions of `(*Client).handshake` that the C13 theorems are about, translated from the
 working tree (extract/trans_client.go): the revision spoken after the server hello, and what is written after it.
@@ -29,3 +30,23 @@ theorem tie_C13_addendum (rev : Nat) (quotaKey : Bytes) :
 what was encoded) -/
 theorem tie_C13_addendum_dropped :
     Generated.Trans.Client.addendum_dropped = ["c.lg.Debug(\"Writing addendum\")", "if err := c.flush(wgCtx); err != nil {…}"] := by decide
+
+
+/-! ### the C13 clauses about the translated statements -/
+
+/-- a feature is in force after the handshake (at the revision the TRANSLATED downgrade yields, looked up through the
+TRANSLATED `Feature.In`) exactly when both sides have it -/
+theorem tie_C13_translated_feature_iff_both (clientRev serverRev t : Nat) :
+    Generated.Trans.Feature.isIn t (Generated.Trans.Client.negotiated clientRev serverRev) =
+      (Generated.Trans.Feature.isIn t clientRev && Generated.Trans.Feature.isIn t serverRev) := by
+  unfold Generated.Trans.Feature.isIn Generated.Trans.Feature.version
+  rw [tie_C13_negotiated]
+  have := C13_feature_iff_both clientRev serverRev t
+  simpa [Model.Msg.featIn, GE.ge] using this
+
+/-- the translated addendum statement writes the quota key exactly from revision 54458 on, and nothing below -/
+theorem tie_C13_translated_addendum_iff (rev : Nat) (q : Bytes) :
+    (Generated.Trans.Client.addendumBytes rev q = putUvarint q.length ++ q ∧ 54458 ≤ rev) ∨
+      (Generated.Trans.Client.addendumBytes rev q = [] ∧ rev < 54458) := by
+  rw [tie_C13_addendum]
+  exact C13_addendum_iff rev q
